@@ -18,9 +18,9 @@ MANIFEST = {
              'seen through an existing container never change), C01_refines_value_semantics (M and S agree on the outcome of every step and on '
              'every observation after every step of every guarded history), C01_exposed_readonly, C01_container_arrays_readonly, '
              'C01_caller_isolation, C01_pickle_roundtrip / C01_deepcopy_roundtrip (same content, read-only, private), '
-             'C01_setstate_refreezes_blocks_and_values (about the regenerated table), C01_no_protect_site_lost / C01_thaw_sites_whitelisted '
-             '(census of the ~160 freeze sites regenerated from the AST vs the pinned table). Refuted/C01.v: the three hypotheses of `guarded` are '
-             'necessary (read-only alias, own_data alias, a slot __setstate__ does not re-freeze). Correspondence: (1) random + exhaustive '
+             'C01_setstate_refreezes_every_array_slot (about the table regenerated from the source: every ndarray slot of every class is re-frozen), C01_no_protect_site_lost / C01_thaw_sites_whitelisted '
+             '(census of the ~160 freeze sites regenerated from the AST vs the pinned table). Refuted/C01.v: the hypotheses of `guarded` about caller arrays are '
+             'necessary (read-only alias, own_data alias). Correspondence: (1) random + exhaustive '
              'constructor-route histories executed on the real library through public calls, whole observation trace and np.shares_memory matrix '
              'compared with M and S inside Coq; (2) EXHAUSTIVE INTERFACE ENUMERATION: every member listed by static-frame\'s own InterfaceSummary for '
              'Series, SeriesHE, Frame, FrameGO, FrameHE, Index, IndexGO, IndexDate..., IndexHierarchy(GO), TypeBlocks, recursively through selector / '
@@ -32,12 +32,13 @@ MANIFEST = {
              'harness. NumPy facts are modelling assumptions validated only by the correspondence runs. PARTIAL: that each of the ~160 freeze sites '
              'follows the protocol is decided by the enumeration (Python-side observation, argument pools sampled in rotation) and by the census '
              'tripwire, not by proof; members *_pool (process pools), to_clipboard / from_clipboard, explicit __init__ / __setstate__ calls on a live '
-             'instance and @ on object-valued receivers (NumPy segfault) are not exercised. Seven known findings (known/C01.jsonl).'),
+             'instance and @ on object-valued receivers (NumPy segfault) are not exercised. Three known findings (known/C01.jsonl); four earlier findings were repaired in /repo and are kept as regression cases (stratum regression:repaired-findings, heap:pickle-index-regression).'),
     'technique': 'invariant + refinement over histories of a heap model; differential traces; exhaustive interface enumeration',
 }
 PROPERTY_FILES = ['Properties/C01.v']
 REFUTED_FILES = ['Refuted/C01.v']
 MODEL_FILES = ['SF/Heap.v', 'SF/HeapAudit.v', 'Gen/Gen_c01.v']
+GENERATED_FILES = ['Gen/Gen_c01.v']
 IMPORTS = 'Require Import SF.Prelude SF.Heap Gen.Gen_c01.\nLocal Open Scope nat_scope.'
 RULE = ('heap strata: a history is a list of steps of the model alphabet (SNew / SView / SFreeze / SWrite / SConstruct / SDerive / SExpose / SFail), each '
         'executed on the real library by a public call; the stratum of a history (guarded, read-only alias, own_data alias, pickle of an Index) is decided '
@@ -54,6 +55,7 @@ ASSUMPTIONS = [
     'alphabet exclusion (stated hypothesis, refuted witness C01_own_data_view_refuted): own_data=True hands over the only writeable reference',
     'the model abstracts auto-index labels / positions (views of the global PositionsAllocator buffer) as private frozen arrays; their aliasing is masked in the shares matrix',
     'cells of object arrays holding mutable Python objects are outside the property (only ndarrays are tracked)',
+    'histories never put the same ndarray object into two slots of one container (pickle would restore it as one shared object; the model allocates one buffer per slot)',
 ]
 TRUSTED = ['tools/sfv/props/c01.py generate(): AST extraction of __setstate__ freeze statements and of the freeze-site census (fails closed on an unknown shape)']
 EXHAUSTIVE = {'quick': False, 'thorough': False}
@@ -503,6 +505,8 @@ def random_history(rng, sim, length, allow):
             elif which == 'tb2':
                 k2 = rng.randrange(nk)
                 a2 = sim.callers[k2]
+                if a2 is a:
+                    continue    # the same ndarray OBJECT in two slots: pickle restores it as one object (memo), the model allocates per slot
                 if sim._unsafe_filter(k2) and 'readonly_alias' not in allow:
                     continue
                 sim.c_tb([k, k2])
@@ -651,7 +655,10 @@ def heap_cases(ctx):
         random_history(ctx.rng, sim, ctx.rng.choice([4, 5, 6, 7]), allow={'own_alias'})
         if sim.flags == {'own_alias'}:
             yield history_case(sim, 'heap:own-alias', False, spec=False)
-    # 5. FINDING class by construction: pickle round trip of a container that has an Index (its _positions array comes back writeable)
+    # 5. pickle round trip of a container that has an Index, exposure of the unpickled positions, attempted write.
+    #    REGRESSION of the repaired finding C01-pickle-positions (/repo 72854e7): with the table regenerated from the current source
+    #    every slot is re-frozen, the history is guarded and its specification is S (the write must raise, nothing changes).
+    #    Should __setstate__ stop re-freezing a slot again, the same histories fall into the by-construction class pickle_index.
     for route, rargs in (('c_series', ()), ('c_index', ()), ('c_frame', (False,))):
         sim = Sim()
         sim.new([11, 22, 33])
@@ -660,14 +667,17 @@ def heap_cases(ctx):
         j = {'c_series': 2, 'c_index': 1, 'c_frame': 2}[route]
         sim.expose(1, j)
         sim.write(len(sim.callers) - 1, 0, -7)
-        if sim.flags != {'pickle_index'}:
+        sim.d_rename(1)
+        if sim.flags - {'pickle_index'}:
             continue
-        yield history_case(sim, 'heap:pickle-index', False, check='pickle-readonly', slot='_positions')
+        yield history_case(sim, 'heap:pickle-index' + ('' if sim.flags else '-regression'), False, check='pickle-readonly', slot='_positions')
     for i in range(ctx.n(30, 300)):
         sim = Sim()
         random_history(ctx.rng, sim, ctx.rng.choice([4, 5, 6, 7]), allow={'pickle_index'})
         if sim.flags == {'pickle_index'}:
             yield history_case(sim, 'heap:pickle-index', False, check='pickle-readonly', slot='_positions')
+        elif not sim.flags and any('pickle_dsrcs_from' in st for st in sim.steps):
+            yield history_case(sim, 'heap:pickle-index-regression', True)
 
 
 # =============================================================================== interface x zoo enumeration (Python-side observation)
@@ -1104,6 +1114,9 @@ def arg_pool(R, pname, default, path, rng, tmp):
         if R.kind == 'frame':
             P.insert(0, ("[('new', writeable ndarray len n0)]", lambda: [('new', _warr(list(range(n0))))]))
         return P
+    if pname == 'array' and member == 'from_structured_array':
+        return [('structured writeable ndarray', lambda: np.array([(1, 2.0), (3, 4.0)], dtype=[('x', int), ('y', float)])),
+                ('2D writeable ndarray', lambda: _warr([[1, 2], [3, 4]])), ('1D writeable ndarray', lambda: _warr([1, 2, 3]))]
     if pname in ('records', 'elements', 'data', 'json_data', 'msgpack_data', 'array', 'block', 'blocks', 'raw_blocks', 'tree', 'levels'):
         P = [('2D writeable ndarray', lambda: _warr([[1, 2], [3, 4]])), ('1D writeable ndarray', lambda: _warr([1, 2, 3])), ('[(1, 2), (3, 4)]', lambda: [(1, 2), (3, 4)]),
              ('[writeable 1D, writeable 1D]', lambda: [_warr([1, 2]), _warr([3, 4])]), ("{'a': (1, 2)}", lambda: {'a': (1, 2)}), ("'[1, 2]'", lambda: '[1, 2]'), ('()', lambda: ())]
@@ -1653,7 +1666,65 @@ def enumeration_cases(ctx):
         shutil.rmtree(tmp, ignore_errors=True)
 
 
+def regression_cases(ctx):
+    '''The inputs of the four repaired findings (fix commits 72854e7 f0b8a42 c94a7b3 50ff628 in /repo); spec = the correct behaviour.'''
+    import static_frame as sf
+
+    def writeable_arrays(obj):
+        return [p for p, a, _ in walk_arrays(obj) if a.flags.writeable]
+
+    def pickle_positions():
+        i = pickle.loads(pickle.dumps(sf.Index((10, 20, 30))))
+        p = i.positions
+        try:
+            p[0] = 99
+            wrote = True
+        except ValueError:
+            wrote = False
+        bad = wrote or p.flags.writeable or i.positions.tolist() != [0, 1, 2] or writeable_arrays(i)
+        return None if not bad else f'unpickled Index: positions writeable={p.flags.writeable}, write accepted={wrote}, positions={i.positions.tolist()}'
+
+    def pickle_arraygo():
+        out = []
+        for h in (sf.IndexHierarchy.from_product(('a', 'b'), (1, 2)), sf.IndexHierarchyGO.from_product(('a', 'b'), (1, 2)),
+                  sf.Series((1, 2, 3, 4), index=sf.IndexHierarchy.from_product(('a', 'b'), (1, 2)))):
+            out += writeable_arrays(pickle.loads(pickle.dumps(h)))
+        return None if not out else f'after a pickle round trip of a hierarchical container these arrays are writeable: {out[:4]}'
+
+    def round_frame():
+        out = []
+        for f in (sf.Frame(np.arange(4).reshape(2, 2)), sf.Frame.from_records([(1.26, 2), (3.51, 4)], columns=('a', 'b')), sf.FrameGO(np.arange(4).reshape(2, 2))):
+            for r in (round(f), round(f, 1), f._blocks.__round__(1)):
+                out += writeable_arrays(r)
+                v = r.values
+                if v.flags.writeable:
+                    out.append('round(...).values')
+        return None if not out else f'round() returned writeable arrays: {out[:4]}'
+
+    def structured():
+        a = np.array([(1, 2.0), (3, 4.0)], dtype=[('x', int), ('y', float)])
+        f = sf.Frame.from_structured_array(a)
+        g = sf.Frame.from_structured_array(a, index_depth=1)
+        before = (observe_container(f), observe_container(g))
+        shared = [p for fr in (f, g) for p, b, _ in walk_arrays(fr) if np.shares_memory(a, b)]
+        a['x'][0] = 99
+        a['y'][1] = -1.0
+        changed = (observe_container(f), observe_container(g)) != before
+        bad = shared or changed or writeable_arrays(f) or writeable_arrays(g)
+        return None if not bad else f'Frame.from_structured_array: arrays sharing memory with the caller array {shared[:3]}, caller write visible={changed}'
+
+    for name, replay, fn in (
+            ('pickle-positions', 'i = pickle.loads(pickle.dumps(sf.Index((10,20,30)))); p = i.positions; p[0] = 99  # must raise', pickle_positions),
+            ('pickle-arraygo', 'pickle.loads(pickle.dumps(sf.IndexHierarchy.from_product((\'a\',\'b\'),(1,2))))._levels.targets.values.flags.writeable  # must be False', pickle_arraygo),
+            ('round-writeable', 'r = round(sf.Frame(np.arange(4).reshape(2,2))); r.values[0,0] = 99  # must raise', round_frame),
+            ('structured-alias', "a = np.array([(1, 2.0), (3, 4.0)], dtype=[('x', int), ('y', float)]); f = sf.Frame.from_structured_array(a); a['x'][0] = 99  # must not show", structured)):
+        ctx.count('regression:' + name)
+        yield Case('regression:repaired-findings', {'finding': 'C01-' + name, 'replay': replay, 'expected': 'the correct behaviour (repaired in /repo)'},
+                   py_fail=fn(), tags={'check': 'regression', 'regression': name}, key='regression|' + name)
+
+
 def cases(ctx):
+    yield from regression_cases(ctx)
     yield from heap_cases(ctx)
     yield from enumeration_cases(ctx)
 
